@@ -11,10 +11,11 @@
        Engine.__init__         LinkValidator.validate_links(links); self.links = links (the caller's set object)
                                                                                                       -> validate_links
        _process_feature        identify group; set_compute_framework; set_data_type                   -> phase2_one
-       add_feature_to_collection / add_feature_link_to_links   self.links.add(feature.link)           -> add_links
-       _handle_input_features_recursion + Features.build_feature_collection / merge_options           -> reach
+       add_feature_to_collection / add_feature_link_to_links   self.links.add(feature.link), only for a
+                               feature that is not yet stored (Feature.__eq__)                        -> proc
+       _handle_input_features_recursion + Features.build_feature_collection / merge_options           -> proc
        _add_filter_feature     identity_matched_filters (deepcopy of each filter, unify_options), then
-                               global_filter.add_filter_to_collection(group, feature.name, match)     -> enrich, coll_add
+                               global_filter.add_filter_to_collection(group, feature.name, match)     -> add_filter_feature
      mloda/core/filter/global_filter.py   unify_options, add_filter_to_collection                     -> enrich, coll_add
      mloda/core/prepare/execution_plan.py add_single_filters_to_feature_set (iteration over collection.items(),
                                first matching set kept BY REFERENCE, later ones compared with !=)     -> step_filters
@@ -142,8 +143,10 @@ Record call := {
 
 Inductive perr := EBadAddr | EAddConflict | ELinks | ENoGroup | ECfw | EDtype | EFuel | ERejected.
 
-(* processed feature: group, name, options (group / context), link *)
-Record pfeat := { pf_gid : nat; pf_name : string; pf_g : opts; pf_c : opts; pf_link : option link }.
+(* a feature as stored in Engine.feature_group_collection: group, name, options (group / context), link, data type,
+   child_options (None for requested and filter features, the parent's options for input features) *)
+Record pfeat := { pf_gid : nat; pf_name : string; pf_g : opts; pf_c : opts; pf_link : option link;
+                  pf_dtype : option nat; pf_child : option opts }.
 
 Inductive outcome :=
   | Accepted (steps : list (nat * opts * list flt))   (* per feature-group step (group, group options): attached filters *)
@@ -222,54 +225,77 @@ Fixpoint phase1 (api : option cols) (strict : bool) (h : heap) (l : list nat) : 
   end.
 
 (* ---------------------------------------------------------------- recursion over input features ---- *)
-Fixpoint all_some {A} (l : list (option (list A))) : option (list A) :=
-  match l with
-  | [] => Some []
-  | None :: _ => None
-  | Some x :: t => match all_some t with Some r => Some (x ++ r) | None => None end
-  end.
-
-(* _process_feature on a feature value and, recursively, on the input features its group asks for.  Input features
-   are Feature(name) objects created by the group: their group options become the parent's (merge_options), their
-   context is empty. *)
-Fixpoint reach (u : universe) (fuel : nat) (n : string) (g c : opts) (l : option link) : option (list pfeat) :=
-  match fuel with
-  | 0 => None
-  | S k =>
-    match resolve u n g c with
-    | None => None
-    | Some gi =>
-      match all_some (map (fun il => reach u k (fst il) g [] (snd il)) (gi_inputs gi)) with
-      | None => None
-      | Some rest => Some ({| pf_gid := gi_id gi; pf_name := n; pf_g := g; pf_c := c; pf_link := l |} :: rest)
-      end
-    end
-  end.
-
-Definition add_links (s : list link) (ps : list pfeat) : list link :=
-  fold_left (fun s p => match pf_link p with Some x => link_add s x | None => s end) ps s.
+Definition onat_eqb (a b : option nat) : bool :=
+  match a, b with None, None => true | Some x, Some y => Nat.eqb x y | _, _ => false end.
+Definition oopts_eqb (a b : option opts) : bool :=
+  match a, b with None, None => true | Some x, Some y => opts_eqb x y | _, _ => false end.
+(* Feature.__eq__: name, options (group), options.context, domain, compute_frameworks, data_type, child_options.
+   NOT the link, NOT initial_requested_data.  (One group per name and one framework per group in the model's domain.) *)
+Definition pf_eqb (a b : pfeat) : bool :=
+  Nat.eqb (pf_gid a) (pf_gid b) && String.eqb (pf_name a) (pf_name b) && opts_eqb (pf_g a) (pf_g b)
+  && opts_eqb (pf_c a) (pf_c b) && onat_eqb (pf_dtype a) (pf_dtype b) && oopts_eqb (pf_child a) (pf_child b).
+Definition stored_in (p : pfeat) (l : list pfeat) : bool := existsb (pf_eqb p) l.
 
 (* unify_options(feat.options, copy_of_filter.options): keys of the feature (group, then context) missing in the
    filter feature's options are set in its group *)
-Definition enrich (x : flt) (p : pfeat) : flt :=
+Definition enrich (x : flt) (g c : opts) : flt :=
   {| ft_name := ft_name x;
-     ft_opts := fold_left (fun o kv => if has (fst kv) o then o else o ++ [kv]) (pf_g p ++ pf_c p) (ft_opts x);
+     ft_opts := fold_left (fun o kv => if has (fst kv) o then o else o ++ [kv]) (g ++ c) (ft_opts x);
      ft_type := ft_type x; ft_param := ft_param x |}.
 
 (* GlobalFilter.criteria: the feature's group accepts the (enriched) filter feature *)
 Definition crit (u : universe) (gid : nat) (x : flt) : bool :=
   match resolve u (ft_name x) (ft_opts x) [] with Some gi => Nat.eqb (gi_id gi) gid | None => false end.
 
-Definition matched (u : universe) (filters : list flt) (p : pfeat) : list flt :=
-  filter (crit u (pf_gid p)) (map (fun x => enrich x p) filters).
+Definition matched (u : universe) (filters : list flt) (gid : nat) (g c : opts) : list flt :=
+  filter (crit u gid) (map (fun x => enrich x g c) filters).
 
-(* _add_filter_feature for every processed feature *)
-Definition add_filters (u : universe) (filters : list flt) (c : fcoll) (ps : list pfeat) : fcoll :=
-  fold_left (fun c p => fold_left (fun c x => coll_add c (pf_gid p, pf_name p) x) (matched u filters p) c) ps c.
+(* the planning state the recursion works on: Engine.feature_group_collection (all groups), Engine.links,
+   GlobalFilter.collection *)
+Record rst := { r_stored : list pfeat; r_links : list link; r_coll : fcoll }.
 
-Definition filter_feats (u : universe) (filters : list flt) (ps : list pfeat) : list pfeat :=
-  flat_map (fun p => map (fun x => {| pf_gid := pf_gid p; pf_name := ft_name x; pf_g := ft_opts x; pf_c := [];
-                                      pf_link := None |}) (matched u filters p)) ps.
+(* _add_filter_feature(group, feature): every matched filter is recorded under (group, feature.name) and its filter
+   feature is stored (add_feature_to_collection: only if no equal feature is stored yet) *)
+Definition add_filter_feature (u : universe) (filters : list flt) (st : rst) (gid : nat) (n : string) (g c : opts) : rst :=
+  fold_left (fun st x =>
+    let ff := {| pf_gid := gid; pf_name := ft_name x; pf_g := ft_opts x; pf_c := []; pf_link := None;
+                 pf_dtype := None; pf_child := None |} in
+    {| r_stored := if stored_in ff (r_stored st) then r_stored st else r_stored st ++ [ff];
+       r_links := r_links st; r_coll := coll_add (r_coll st) (gid, n) x |})
+    (matched u filters gid g c) st.
+
+(* Engine._process_feature on a feature value: resolve the group; add_feature_to_collection -- only a feature that is
+   NOT yet stored (Feature.__eq__ ignores the link!) gets its link added to Engine.links and its input features
+   processed (Feature(name) objects created by the group: group options = the parent's (merge_options), context empty,
+   child_options = the parent's options, data type = the group's rule); then, in any case, _add_filter_feature. *)
+Fixpoint proc (u : universe) (use_filter : bool) (filters : list flt) (fuel : nat) (st : rst)
+              (n : string) (g c : opts) (l : option link) (dt : option nat) (child : option opts) : option rst :=
+  match fuel with
+  | 0 => None
+  | S k =>
+    match resolve u n g c with
+    | None => None
+    | Some gi =>
+      let p := {| pf_gid := gi_id gi; pf_name := n; pf_g := g; pf_c := c; pf_link := l; pf_dtype := dt; pf_child := child |} in
+      let st1 :=
+        if stored_in p (r_stored st) then Some st
+        else fold_left (fun acc il => match acc with
+                                      | None => None
+                                      | Some s => match ufind u (fst il) with
+                                                  | None => None
+                                                  | Some gi' => proc u use_filter filters k s (fst il) g [] (snd il) (gi_dtype gi') (Some g)
+                                                  end
+                                      end)
+                       (gi_inputs gi)
+                       (Some {| r_stored := r_stored st ++ [p];
+                                r_links := match l with Some x => link_add (r_links st) x | None => r_links st end;
+                                r_coll := r_coll st |}) in
+      match st1 with
+      | None => None
+      | Some s1 => Some (if use_filter then add_filter_feature u filters s1 (gi_id gi) n g c else s1)
+      end
+    end
+  end.
 
 (* ---------------------------------------------------------------- steps and their filters ---- *)
 Definition same_step (a b : pfeat) : bool := Nat.eqb (pf_gid a) (pf_gid b) && opts_eqb (pf_g a) (pf_g b).
@@ -301,7 +327,10 @@ Fixpoint attach (c : fcoll) (stored reps : list pfeat) : option (list (nat * opt
   end.
 
 (* ---------------------------------------------------------------- phase 2: Engine ---- *)
-Record pst := { p_heap : heap; p_links : list link; p_coll : fcoll; p_stored : list pfeat }.
+Record pst := { p_heap : heap; p_r : rst }.
+Definition p_links (s : pst) := r_links (p_r s).
+Definition p_coll (s : pst) := r_coll (p_r s).
+Definition p_stored (s : pst) := r_stored (p_r s).
 
 Definition cfw_check (f : fobj) (gi : ginfo) : perr + option (list nat) :=
   match f_cfw f with
@@ -334,18 +363,14 @@ Definition phase2_one (u : universe) (fuel : nat) (use_filter : bool) (filters :
         | inr cf =>
           match dtype_check f gi with
           | None => (* compute framework already written *)
-              ({| p_heap := (upd F a (set_cfw_dtype cf (f_dtype f)), O); p_links := p_links st; p_coll := p_coll st;
-                  p_stored := p_stored st |}, Some EDtype)
+              ({| p_heap := (upd F a (set_cfw_dtype cf (f_dtype f)), O); p_r := p_r st |}, Some EDtype)
           | Some dt =>
             let h' : heap := (upd F a (set_cfw_dtype cf dt), O) in
-            match reach u fuel (f_name f) (og o) (oc o) (f_link f) with
-            | None => (* an input feature does not resolve (outside the model's domain: partial effects of the
+            match proc u use_filter filters fuel (p_r st) (f_name f) (og o) (oc o) (f_link f) dt None with
+            | None => (* an input feature does not resolve (outside the model's domain: the partial effects of the
                          recursion depend on set iteration order) *)
-                      ({| p_heap := h'; p_links := p_links st; p_coll := p_coll st; p_stored := p_stored st |}, Some ENoGroup)
-            | Some ps =>
-              ({| p_heap := h'; p_links := add_links (p_links st) ps;
-                  p_coll := if use_filter then add_filters u filters (p_coll st) ps else p_coll st;
-                  p_stored := p_stored st ++ ps ++ (if use_filter then filter_feats u filters ps else []) |}, None)
+                      ({| p_heap := h'; p_r := p_r st |}, Some ENoGroup)
+            | Some r => ({| p_heap := h'; p_r := r |}, None)
             end
           end
         end
@@ -377,7 +402,7 @@ Definition plan_call (u : universe) (fuel : nat) (w : world) (c : call) : world 
   | (h1, None) =>
     if c_links c && negb (validate_links (w_links w)) then (back h1 (w_links w) (w_coll w), Failed ELinks)
     else
-      let st0 := {| p_heap := h1; p_links := if c_links c then w_links w else []; p_coll := w_coll w; p_stored := [] |} in
+      let st0 := {| p_heap := h1; p_r := {| r_stored := []; r_links := if c_links c then w_links w else []; r_coll := w_coll w |} |} in
       match phase2 u fuel (c_filter c) (w_filters w) st0 addrs with
       | (st, Some e) => (back (p_heap st) (p_links st) (p_coll st), Failed e)
       | (st, None) =>
@@ -423,7 +448,7 @@ Definition call_products (u : universe) (fuel : nat) (w : world) (c : call) : fc
   match phase1 (c_api c) (c_strict c) h0 addrs with
   | (h1, Some _) => ([], [])
   | (h1, None) =>
-    let st0 := {| p_heap := h1; p_links := if c_links c then w_links w else []; p_coll := []; p_stored := [] |} in
+    let st0 := {| p_heap := h1; p_r := {| r_stored := []; r_links := if c_links c then w_links w else []; r_coll := [] |} |} in
     let st := fst (phase2 u fuel (c_filter c) (w_filters w) st0 addrs) in (p_coll st, p_stored st)
   end.
 Definition kf_filter (u : universe) (fuel : nat) (w : world) (c : call) : bool :=
@@ -438,7 +463,8 @@ Definition kf_links (w0 w : world) (c : call) : bool := c_links c && negb (links
 (* ---------------------------------------------------------------- correspondence checker ---- *)
 (* observed after each call: the caller's heaps, links set and collection (structural snapshot), and the outcome *)
 Inductive oobs := OAccepted (steps : list (nat * opts * list flt)) | OFailed (e : perr) | OOther.
-Record cobs := { co_call : call; co_F : list fobj; co_O : list oobj; co_links : list link; co_coll : fcoll; co_out : oobs }.
+Record cobs := { co_call : call; co_F : list fobj; co_O : list oobj; co_links : list link; co_coll : fcoll; co_out : oobs;
+                co_same : bool  (* observed: same planning outcome as the same call on fresh equal objects *) }.
 
 Definition oobj_eqb (a b : oobj) : bool := opts_eqb (og a) (og b) && opts_eqb (oc a) (oc b).
 Definition oset_eqb (a b : option (list nat)) : bool :=
@@ -447,8 +473,6 @@ Definition oset_eqb (a b : option (list nat)) : bool :=
   | Some x, Some y => forallb (fun i => existsb (Nat.eqb i) y) x && forallb (fun i => existsb (Nat.eqb i) x) y
   | _, _ => false
   end.
-Definition onat_eqb (a b : option nat) : bool :=
-  match a, b with None, None => true | Some x, Some y => Nat.eqb x y | _, _ => false end.
 Definition olink_eqb (a b : option link) : bool :=
   match a, b with None, None => true | Some x, Some y => link_eqb x y | _, _ => false end.
 Definition fobj_eqb (a b : fobj) : bool :=
@@ -462,6 +486,8 @@ Definition out_matches (m : outcome) (o : oobs) : bool :=
   match m, o with
   | Accepted s _, OAccepted s' => steps_sub s s' && steps_sub s' s
   | Failed e, OFailed e' => perr_eqb e e'
+  | Accepted _ _, OOther => true     (* rejected by a planning stage the model does not cover (link resolution) ... *)
+  | Failed ERejected, OOther => true (* ... which runs before the execution plan compares the filter sets *)
   | _, _ => false
   end.
 
@@ -478,3 +504,16 @@ Fixpoint chk_calls (u : universe) (fuel : nat) (w : world) (h : list cobs) : boo
 
 Definition chk_args (c : universe * world * list cobs) : bool :=
   match c with (u, w, h) => chk_calls u 8 w h end.
+
+(* the known-defect domains against reality: outside them (and as long as every earlier call left the features alone,
+   copy_features=True) the observed outcome with the shared objects equals the observed outcome with fresh ones *)
+Fixpoint chk_kf_calls (u : universe) (fuel : nat) (w0 w : world) (allcopy : bool) (h : list cobs) : bool :=
+  match h with
+  | [] => true
+  | b :: t =>
+    let w' := fst (plan_call u fuel w (co_call b)) in
+    (if allcopy && negb (kf_filter u fuel w (co_call b)) && negb (kf_links w0 w (co_call b)) then co_same b else true)
+    && chk_kf_calls u fuel w0 w' (allcopy && c_copy (co_call b)) t
+  end.
+Definition chk_kf (c : universe * world * list cobs) : bool :=
+  match c with (u, w, h) => chk_kf_calls u 8 w w true h end.
